@@ -1149,3 +1149,177 @@ def rule_R8_split_unfiltered(ctx, typer):
         else:
             ctx.viol("R8", f, r, "the components returned are `%s`, not the split list" % norm(e))
     return n
+
+
+# ---------------------------------------------------------------------- R9
+def _component_constraint(guards, var):
+    """what the dominating guards say about the component variable: (P, N) with P the set it must be in (None: no
+    positive test) and N the set of values excluded"""
+    P, N = None, set()
+    for c, o, _ in guards:
+        if not (isinstance(c, ast.Compare) and len(c.ops) == 1):
+            continue
+        l, r, op = c.left, c.comparators[0], c.ops[0]
+        vals = None
+        if isinstance(l, ast.Name) and l.id == var:
+            if isinstance(op, (ast.Eq, ast.NotEq)) and isinstance(r, ast.Constant) and isinstance(r.value, str):
+                vals = {r.value}
+            elif isinstance(op, (ast.In, ast.NotIn)) and isinstance(r, (ast.Tuple, ast.List, ast.Set)) and all(
+                    isinstance(e, ast.Constant) and isinstance(e.value, str) for e in r.elts):
+                vals = {e.value for e in r.elts}
+        elif isinstance(r, ast.Name) and r.id == var and isinstance(op, (ast.Eq, ast.NotEq)) and isinstance(l, ast.Constant) \
+                and isinstance(l.value, str):
+            vals = {l.value}
+        if vals is None:
+            continue
+        positive = isinstance(op, (ast.Eq, ast.In)) == bool(o)
+        if positive:
+            P = vals if P is None else (P & vals)
+        else:
+            N |= vals
+    if P is not None:
+        P = P - N
+    return P, N
+
+
+def rule_R9_component_dispatch(ctx, typer, which):
+    """each path component is interpreted as specified: '..' moves to the parent, '' and '.' stay, any other component is
+    looked up among the children (get: the walk loop; glob: the recursive descent, where '**' additionally fans out
+    over the subtree).  Decided on the CFG: every step is classified by what it assigns/passes on, its dominating
+    tests on the component must select exactly the components that step is specified for, and every path of a
+    selected component performs its step before the next component is taken."""
+    from .common import expand_straightline
+    cls, funcs = resolver_funcs(ctx.p)
+    n = 0
+    SPECIAL = {"..", "", "."}
+    if which == "get":
+        f = funcs.get("get")
+        cfg = typer.cfg_of(f)
+        loops = [x for x in walk_own(f.node) if isinstance(x, ast.For) and isinstance(x.target, ast.Name)
+                 and any(isinstance(c, ast.Call) and norm(c.func).endswith("__get") for c in ast.walk(x))]
+        rets = [r for r in walk_own(f.node) if isinstance(r, ast.Return) and isinstance(r.value, ast.Name)]
+        if len(loops) != 1 or not rets:
+            raise AnalysisError("anchor: the component walk loop of Resolver.get not found")
+        loop = loops[0]
+        part = loop.target.id
+        nodevar = rets[-1].value.id
+        inside = {id(x) for s_ in loop.body for x in ast.walk(s_)}
+        ups, childs = [], []
+        for cn in cfg.stmt_nodes(("stmt",)):
+            a = cn.ast
+            if id(a) not in inside or not isinstance(a, ast.Assign):
+                continue
+            if not any(isinstance(t, ast.Name) and t.id == nodevar for t in a.targets):
+                continue
+            n += 1
+            rhs = expand_straightline(cn, a.value)
+            P, N = _component_constraint(cfg.guards_of(cn), part)
+            if isinstance(rhs, ast.Attribute) and rhs.attr == "parent" and norm(rhs.value) == nodevar:
+                ups.append(cn)
+                if P == {".."}:
+                    ctx.inst("R9", f, a, "'..' moves to the parent")
+                else:
+                    ctx.viol("R9", f, a, "the step to the parent is taken for components %s, not exactly for '..'" % (
+                        sorted(P) if P is not None else "other than %s" % sorted(N)))
+            elif isinstance(rhs, ast.Call) and norm(rhs.func).endswith("__get") and len(rhs.args) >= 2 and norm(rhs.args[-2]) == nodevar \
+                    and norm(rhs.args[-1]) == part:
+                childs.append(cn)
+                if P is None and N == SPECIAL:
+                    ctx.inst("R9", f, a, "every component other than '..', '', '.' is looked up among the children")
+                else:
+                    ctx.viol("R9", f, a, "the child lookup is performed for components %s; specified: every component except "
+                             "'..', '' and '.'" % (sorted(P) if P is not None else "other than %s" % sorted(N)))
+            else:
+                ctx.viol("R9", f, a, "the current node is replaced by `%s` inside the walk: not one of the specified steps (parent "
+                         "for '..', child lookup otherwise)" % norm(rhs))
+        heads = [h for h in cfg.nodes if h.kind == "fornext" and h.ast is loop]
+        # every path of a '..' component reaches its step (or leaves) before the next component
+        for kind, want, steps in (("'..'", "up", ups), ("a child name", "child", childs)):
+            starts = []
+            for g in cfg.nodes:
+                if g.kind != "guard" or id(g.cond) not in inside and not any(id(x) in inside for x in ast.walk(g.cond)):
+                    continue
+                P, N = _component_constraint(cfg.guards_of(g) + [(g.cond, g.outcome, g)], part)
+                Pb, Nb = _component_constraint(cfg.guards_of(g), part)
+                if want == "up" and P == {".."} and Pb != {".."}:
+                    starts.append(g)
+                if want == "child" and P is None and N == SPECIAL and Nb != SPECIAL:
+                    starts.append(g)
+            n += 1
+            if not starts:
+                ctx.viol("R9", f, loop, "no path of the walk is selected for %s (tests on the component: none establishes it)" % kind,
+                         construct="Resolver.get: no branch for %s" % kind)
+                continue
+            for g in starts:
+                reach = cfg.reach_from(g, avoid=steps, labels_excluded=("exc",))
+                if any(h.id in reach for h in heads):
+                    ctx.viol("R9", f, g.cond, "for %s a path takes the next component without %s" % (
+                        kind, "moving to the parent" if want == "up" else "looking the component up"),
+                        construct="Resolver.get: %s path skips its step" % kind)
+                else:
+                    ctx.inst("R9", f, g.cond, "%s: step performed on every path" % kind)
+        return n
+    # ---- glob
+    f = funcs.get("__glob")
+    if f is None:
+        raise AnalysisError("anchor Resolver.__glob not found")
+    cfg = typer.cfg_of(f)
+    nodep, partsp = f.posparams[1], f.posparams[2]
+    comp = None
+    for a in walk_own(f.node):
+        if isinstance(a, ast.Assign) and len(a.targets) == 1 and isinstance(a.targets[0], ast.Name) and isinstance(a.value, ast.Subscript) \
+                and norm(a.value.value) == partsp and isinstance(a.value.slice, ast.Constant) and a.value.slice.value == 0:
+            comp = a.targets[0].id
+    if comp is None:
+        raise AnalysisError("anchor: first component of Resolver.__glob not found")
+    seen = {"up": 0, "stay": 0, "fan": 0, "find": 0}
+    for cn in cfg.nodes:
+        root = cn.cond if cn.kind == "test" else (cn.ast.iter if cn.kind == "foriter" else cn.ast)
+        if root is None or cn.kind in ("guard", "entry", "exit", "loopin", "loopdone", "fornext", "tryenter", "dispatch", "handler"):
+            continue
+        if isinstance(root, (ast.If, ast.For, ast.While, ast.Try, ast.With)):
+            continue
+        for c in ast.walk(root):
+            if not isinstance(c, ast.Call):
+                continue
+            fn = norm(c.func)
+            if fn.endswith("__glob") and len(c.args) == 2:
+                arg = expand_straightline(cn, c.args[0])
+                P, N = _component_constraint(cfg.guards_of(cn), comp)
+                n += 1
+                if isinstance(arg, ast.Attribute) and arg.attr == "parent" and norm(arg.value) == nodep:
+                    seen["up"] += 1
+                    ok, want = P == {".."}, "'..'"
+                elif isinstance(arg, ast.Name) and arg.id == nodep:
+                    seen["stay"] += 1
+                    ok, want = P == {"", "."}, "'' and '.'"
+                else:
+                    # fan-out over the subtree ('**') or descent below a matching child (inside __find)
+                    loopvars = {x.target.id for x in walk_own(f.node) if isinstance(x, ast.For) and isinstance(x.target, ast.Name)
+                                and isinstance(x.iter, ast.Call) and norm(x.iter.func) == "PreOrderIter" and x.iter.args
+                                and norm(x.iter.args[0]) == nodep}
+                    if isinstance(arg, ast.Name) and arg.id in loopvars:
+                        seen["fan"] += 1
+                        ok, want = P == {"**"}, "'**'"
+                    else:
+                        ok, want = False, "a specified step"
+                if ok:
+                    ctx.inst("R9", f, c, "recursion on %s exactly for %s" % (norm(arg), want))
+                else:
+                    ctx.viol("R9", f, c, "the descent continues at `%s` for components %s; specified for this step: %s" % (
+                        norm(arg), sorted(P) if P is not None else "other than %s" % sorted(N), want))
+            elif fn.endswith("__find") and len(c.args) == 3:
+                P, N = _component_constraint(cfg.guards_of(cn), comp)
+                n += 1
+                seen["find"] += 1
+                if P is None and N == SPECIAL | {"**"} and norm(c.args[0]) == nodep and norm(c.args[1]) == comp:
+                    ctx.inst("R9", f, c, "every other component is matched against the children")
+                else:
+                    ctx.viol("R9", f, c, "children are matched for components %s; specified: every component except '..', '', '.', '**'" % (
+                        sorted(P) if P is not None else "other than %s" % sorted(N)))
+    for k, v in seen.items():
+        if not v:
+            ctx.viol("R9", f, f.node, "Resolver.__glob has no %s step" % {"up": "'..' (parent)", "stay": "''/'.' (stay)",
+                                                                          "fan": "'**' (subtree)", "find": "child matching"}[k],
+                     construct="Resolver.__glob: no %s step" % k)
+    return n
